@@ -179,6 +179,9 @@ def _remove_unwanted_expression_nodes(parent_node, pos, until_pos):
             if n.end_pos > pos:
                 start_index = i
                 if n.type == 'operator':
+                    if i == 0:
+                        # A prefix operator (`-x`) cannot be cut off its operand.
+                        return [parent_node]
                     start_index -= 1
                 break
         for i, n in reversed(list(enumerate(nodes))):
